@@ -2,7 +2,7 @@
    Only statements closed by [exact]; the lemmas live in Proofs/Reference.v.
    The regular expressions are Generated/Regexes.v (re-translated from
    registry/reference.go on every run). *)
-From Oras Require Import Base.Prelude Base.Regex Generated.Regexes Model.Reference Proofs.Reference.
+From Oras Require Import Base.Prelude Base.Regex Generated.GC20 Model.Reference Proofs.Reference.
 
 (* ParseReference accepts exactly the grammar (any registry predicate). *)
 Theorem C20_parse_iff_grammar :
